@@ -232,7 +232,7 @@ def _run(tier, seed, tmp, t0):
     cover, n_planned = rr.cover_plans(ideal, binder, depth, want=want)
     items += [{"kind": "cover", "steps": p} for p in cover]
     rng = random.Random(seed * 7919 + 1)
-    n_rand = 150 if tier == "quick" else 4000
+    n_rand = 150 if tier == "quick" else 2500
     lengths = (3, 4, 5) if tier == "quick" else (3, 4, 5, 6, 7)
     items += [{"kind": "random", "steps": p} for p in rr.random_plans(ideal, binder, n_rand, lengths, rng)]
     for i, it in enumerate(items):
